@@ -56,12 +56,19 @@ func (q *UnsafeQuery) Close() {
 	}
 	q.cursor.archetype = -2
 	q.cursor.table = -2
+	// Make Next leave its fast path, so that using a closed query
+	// panics in release builds as it does with ark_debug (see nextTableOrArchetype).
+	q.cursor.index = 0
+	q.cursor.maxIndex = -1
 	q.tables = nil
 	q.table = nil
 	q.world.unlockSafe(q.lock)
 }
 
 func (q *UnsafeQuery) nextTableOrArchetype() bool {
+	if q.cursor.table < -1 {
+		panic("query iteration already finished. Create a new query to iterate again")
+	}
 	if q.cursor.archetype >= 0 && q.nextTable() {
 		return true
 	}
